@@ -300,11 +300,12 @@ def run(ck: Check) -> None:
         "pydantic/Config.jinja2: `class Config:` has a body only under the invariant of model/pydantic/base_model.py that a "
         "Config object has at least one field set (theorem config_class_body_nonempty is conditional on it)",
     ]
-    _campaign_templates(ck, quick)
-    tpl_search.self_test(ck)
     campaign_repr(ck, 1500 if quick else 20000)
     campaign_text_slots(ck)
     campaign_e2e(ck, 150 if quick else 2500, 200 if quick else 3500)
+    # after the older campaigns, so that their random streams are what they were before these were added
+    _campaign_templates(ck, quick)
+    tpl_search.self_test(ck)
     known_findings(ck)
 
 
